@@ -215,4 +215,14 @@ CHECKS = {
         technique='Hypothesis histories weighted to cancels in every order with creation, scheduling and completion inside / beside / above the cancelled subtree; before/after snapshot relations + "request answered normally" clause',
         text='~1k histories per quick run (5 unguarded shards re-find the error-1242 finding, 11 guarded shards search behind it).',
         note='Same engine limits as C01; error 1242 semantics of minimysql has its own self-test. One known finding (is_job_cancelled returns one row per cancelled ancestor).'),
+    'C08': dict(
+        level='exploration',
+        technique='schema-directed Hypothesis generation of create-fast / update-fast / jobs-create submissions with adversarial job and parent ids through the real aiohttp application on batchsim; structural validity + fair drive to completion; committed-state comparison on refusal',
+        text='~640 multi-submission cases per quick run: an accepted submission only references existing earlier jobs and in-range ids and the committed batch reaches complete=true when every attempt succeeds; a refused submission leaves the committed-visible state unchanged.',
+        note='Same engine limits as C01; dependencies on jobs of a never-committed update are counted, not judged. Found and fixed: ids outside the update range and self/later/missing parents were accepted.'),
+    'C39': dict(
+        level='exploration',
+        technique='Hypothesis interleavings of the real scheduler loop, four canceller bodies, simulated workers (duplicate/late/stale reports), preemption and user cancels, followed by a fair closing phase to a fixpoint; safety invariants per op, bounded liveness at the fixpoint',
+        text='~640 histories per quick run: running jobs always have exactly one current attempt, stale reports never change job state; at the fair fixpoint every committed job is terminal, batches complete, always-run jobs ran.',
+        note='Liveness only as fixpoint detection under the stated fairness model at transaction granularity; round bound 60 => inconclusive. Known findings are excluded by construction.'),
 }
